@@ -28,7 +28,7 @@ class Failure:
         return "Failure(%r, %r)" % (self.bucket, self.message)
 
 
-class Inconclusive(Exception):
+class Inconclusive(BaseException):
     pass
 
 
@@ -176,7 +176,7 @@ class Worker:
             saved = (collections.Counter(ctx.labels), ctx.extra_evals, ctx.extra_nontrivial)
         self.hooks.reset_case(self.numpoly)
         fails = []
-        signal.alarm(int(os.environ.get("VERIF_CASE_TIMEOUT", "120")))
+        signal.alarm(int(os.environ.get("VERIF_CASE_TIMEOUT", "90")))
         try:
             fails = list(self.mod.check_case(case, ctx) or [])
         except Inconclusive:
